@@ -38,6 +38,15 @@ class C20(Prop):
                     sk.append(('M', [(('f', a), ('f', b))])); sk.append(('m', [(('u', 1), ('f', a)), (('f', b), ('u', 2))]))
                     sk.append(('A', [('f', a), ('f', b)])); sk.append(('a', [('f', a), ('u', 7), ('f', b)]))
                     sk.append(('B', [a, b])); sk.append(('G', 2 ** 40, ('M', [(('f', a), ('G', 1, ('f', b)))])))
+        # every wrapper kind (tags of every head width, one-member containers, pairs, chunked strings) around a string whose own
+        # size is within 0..31 of 2^64: the outer total is exact just below the boundary and 0 from the boundary on
+        for d in range(0, 32):
+            a = M - 1 - d
+            for tv in (0, 23, 24, 255, 256, 65535, 65536, 2 ** 32 - 1, 2 ** 32, M - 1):
+                sk.append(('G', tv, ('f', a)))
+            sk.append(('G', 24, ('G', 256, ('f', a)))); sk.append(('A', [('f', a)])); sk.append(('a', [('f', a)])); sk.append(('B', [a]))
+            sk.append(('M', [(('u', 1), ('f', a))])); sk.append(('M', [(('f', a), ('u', 30))])); sk.append(('m', [(('u', 1), ('f', a))]))
+            sk.append(('A', [('u', 1), ('f', a)])); sk.append(('A', [('f', a), ('u', 100)])); sk.append(('B', [3, a])); sk.append(('B', [a, 3]))
         return sk
 
     @staticmethod
@@ -75,6 +84,11 @@ class C20(Prop):
                 h = gen.head(mt, v, 27)
                 for tail in (b'', b'\x01', b'\x01\x02', b'\x01\x02\x03\x04'):
                     lines.append('LOAD %s 0 0 %d' % (gen.hexs(h + tail), dec.HUGE))
+        # growth of every kind of indefinite container at capacities up to the maximum size_t: the allocator (which refuses and records)
+        # is either asked for exactly elt * new_capacity bytes or not asked at all
+        caps = [0, 1, 2, 3, 4, 5, 7, 8, 1000] + [2 ** k + d for k in range(55, 64) for d in (-1, 0, 1)] + [2 ** 64 - 1, 2 ** 64 - 2, 3 * 2 ** 59, 3 * 2 ** 60, 3 * 2 ** 61, 5 * 2 ** 58]
+        for kind in 'ambs':
+            for c in caps: lines.append('GROWAT %s %d' % (kind, c))
         return lines
 
     def corr_lines(self, tier, rng):
@@ -87,7 +101,7 @@ class C20(Prop):
 
     def nontrivial(self, line, out):
         w = line.split()
-        if w[0] in ('SIZES', 'LOAD', 'H'): return True
+        if w[0] in ('SIZES', 'LOAD', 'H', 'GROWAT'): return True
         if w[0] == 'HRESET': return False
         return len(w) == 3 and int(w[1]) > 1 and int(w[2]) > 1 or w[0] in ('HBIT', 'HDR')
 
@@ -124,6 +138,20 @@ class C20(Prop):
             if w[0] == 'H' and w[1] in ('arr', 'map') and not o.startswith('NULL'):
                 fails.append({'input': 'HRESET ; ' + l, 'expected': 'NULL (the byte size of the slot array does not fit size_t)', 'observed': o[:200],
                               'why': 'a container was created although its declared capacity cannot be allocated'})
+            if w[0] == 'GROWAT':
+                cap = int(w[2]); elt = 16 if w[1] == 'm' else 8
+                newcap = 1 if cap == 0 else 2 * cap; exact = elt * newcap
+                ow = dict(f.split('=') for f in o.split()[1:]) if o.split() else {}
+                why = None
+                if not o.startswith('false'): why = 'the insertion succeeded although the allocator refused every request'
+                elif ow.get('rc') != '1': why = 'the refused insertion changed the reference count of the item'
+                elif ow.get('reqs') == '1':
+                    if int(ow['last']) != exact: why = 'the allocator was asked for %s bytes but %d entries of %d bytes need %d' % (ow['last'], newcap, elt, exact)
+                elif ow.get('reqs') == '0':
+                    if exact < 2 ** 63 and newcap < 2 ** 63: why = 'growth was refused without asking the allocator although %d bytes are representable' % exact
+                else: why = 'unexpected number of allocator requests'
+                if why: fails.append({'input': l, 'expected': 'false, and either no request or one request for exactly %d bytes' % exact, 'observed': o, 'why': why})
+                continue
             if w[0] in ('H', 'HRESET', 'SIZES', 'LOAD'): continue
             if w[0] == 'MUL':
                 a, b = int(w[1]), int(w[2])
